@@ -230,6 +230,9 @@ func c15Scope(e enum.Embed, k, n int, open bool, level int) *drv.Scope {
 }
 
 // multiples of 2^32 and 2^33: cross products of real corners differ only in the high 64-bit word
+// odd multipliers near 2^33 / 2^34 with large low halves: every partial product of the 128-bit multiplication carries
+var c15E33 = enum.Embed{Name: "E_2^33odd", Big: true, F: func(x, y int64) Pt { return Pt{X: (x - 1) * 0x29ABCDEF1, Y: (y - 1) * 0xFFFFFFFF} }}
+
 var c15E32 = enum.Embed{Name: "E_2^32", Big: true, F: func(x, y int64) Pt { return Pt{X: (x - 1) << 32, Y: (y - 1) << 33} }}
 
 func init() {
@@ -261,6 +264,10 @@ func init() {
 					out = append(out, c15Scope(enum.Ebig, 3, n, open, n-2))
 					out = append(out, c15Scope(enum.EbigOdd, 3, n, open, n-2))
 					out = append(out, c15Scope(c15E32, 3, n, open, n-2))
+					if n <= 4 {
+						// steps of one and of three lattice units on the same line need L(5)
+						out = append(out, c15Scope(c15E33, 5, n, open, n-1))
+					}
 				}
 				if tier == "thorough" {
 					out = append(out, c15Scope(enum.Eax, 3, 6, open, 4))
